@@ -142,6 +142,46 @@ fn vp_native_target_and_host_matrix() {
     println!("VP-NATIVE target_and_host_matrix cases={}", cases);
 }
 
+/// C08: the connection goes to the host and port of the URL (or of the proxy), whatever the host's form: listeners on 127.0.0.1
+/// and on [::1]; a request for an IPv6 literal arrives at the IPv6 listener with that literal in Host, a proxy given as an IPv6
+/// literal is the peer, and an IPv6 literal that merely embeds an IPv4 address (::127.0.0.1) never reaches the IPv4 listener
+#[test]
+fn vp_native_peer_is_the_url_host() {
+    let (log4, log6) = (Arc::new(Mutex::new(Vec::new())), Arc::new(Mutex::new(Vec::new())));
+    let p4 = serve(log4.clone(), |_, _| resp(200, None, "v4"));
+    let l6 = match TcpListener::bind("[::1]:0") { Ok(l) => l, Err(e) => { println!("VP-NATIVE peer_is_the_url_host cases=0 (no IPv6 loopback here: {})", e); return; } };
+    let p6 = l6.local_addr().unwrap().port();
+    { let log6 = log6.clone(); std::thread::spawn(move || { for s in l6.incoming() { let mut s = match s { Ok(s) => s, Err(_) => break };
+        s.set_read_timeout(Some(std::time::Duration::from_millis(1500))).ok();
+        if let Some(raw) = read_request(&mut s) { log6.lock().unwrap().push(decode_request(&raw)); }
+        s.write_all(&resp(200, None, "v6")).ok(); s.shutdown(std::net::Shutdown::Write).ok(); } }); }
+    let direct = { let mut s = crate::Session::new(); s.proxy_settings(crate::ProxySettings::builder().build()); s.connect_timeout(std::time::Duration::from_secs(2)); s };
+    let mut cases = 0u64;
+    // IPv4 literal
+    let r = direct.get(format!("http://127.0.0.1:{}/a", p4)).send().unwrap(); cases += 1;
+    assert_eq!(r.text().unwrap(), "v4"); settle(&log4, 1);
+    assert_eq!(log4.lock().unwrap().last().unwrap().host.as_deref(), Some(&format!("127.0.0.1:{}", p4)[..]));
+    // IPv6 literal: reaches the IPv6 listener, Host keeps the brackets
+    let r = direct.get(format!("http://[::1]:{}/b?x=1", p6)).send().unwrap_or_else(|e| panic!("http://[::1]:{}/ must reach the listener on [::1]:{}: {}", p6, p6, e)); cases += 1;
+    assert_eq!(r.text().unwrap(), "v6");
+    { let l = log6.lock().unwrap(); let q = l.last().expect("the IPv6 listener saw the request");
+      assert_eq!(q.target, "/b?x=1"); assert_eq!(header(q, "host"), vec![format!("[::1]:{}", p6).as_bytes()]); }
+    // a proxy given as an IPv6 literal is the peer; absolute-form, Host of the proxy
+    let via6 = { let mut s = crate::Session::new(); s.proxy_settings(crate::ProxySettings::builder().http_proxy(Url::parse(&format!("http://[::1]:{}", p6)).unwrap()).build()); s };
+    let before = log6.lock().unwrap().len();
+    let r = via6.get("http://origin.test/c").send().unwrap(); cases += 1;
+    assert_eq!(r.text().unwrap(), "v6");
+    { let l = log6.lock().unwrap(); assert_eq!(l.len(), before + 1); assert_eq!(l.last().unwrap().target, "http://origin.test/c"); }
+    // an IPv6 literal that embeds an IPv4 address is still an IPv6 address: it must not be dialled as 127.0.0.1
+    let before4 = log4.lock().unwrap().len();
+    for host in ["[::127.0.0.1]", "[::7f00:1]"] {
+        let res = direct.get(format!("http://{}:{}/d", host, p4)).send(); cases += 1;
+        std::thread::sleep(std::time::Duration::from_millis(50));
+        assert_eq!(log4.lock().unwrap().len(), before4, "the request for {}:{} was sent to 127.0.0.1:{} ({:?})", host, p4, p4, res.map(|r| r.status()));
+    }
+    println!("VP-NATIVE peer_is_the_url_host cases={}", cases);
+}
+
 /// C16: settings flow by value: session -> request snapshots, request overrides, clones and siblings, header set/append, defaults
 #[test]
 fn vp_native_settings_flow() {
@@ -476,6 +516,11 @@ fn vp_native_redirect_matrix() {
             let status: u16 = seg[2].parse().unwrap(); let n: u32 = query.as_deref().and_then(|q| q.strip_prefix("h=")).and_then(|v| v.parse().ok()).unwrap_or(0);
             return if n == 0 { resp(200, None, "end") } else { resp(status, Some(&format!("?h={}", n - 1)), "") };
         }
+        if seg.len() >= 3 && seg[1] == "up" {
+            // /up/<status>/d/d/../ : every level answers with the same relative reference `../` until the top is reached
+            let status: u16 = seg[2].parse().unwrap(); let depth = seg[3..].iter().filter(|x| **x == "d").count();
+            return if depth == 0 { resp(200, None, "top") } else { resp(status, Some("../"), "") };
+        }
         if seg.len() >= 6 && seg[1] == "c" {
             let status: u16 = seg[2].parse().unwrap(); let n: u32 = seg[3].parse().unwrap(); let form = seg[4];
             if n == 0 { return resp(200, None, "end"); }
@@ -529,6 +574,23 @@ fn vp_native_redirect_matrix() {
                 assert_eq!(sent.len() as u32, max + 1, "at most max_redirections + 1 requests: {} -> {:?}", ctx, sent);
             }
         } }
+    } } }
+    // the same relative Location on consecutive hops names a different URL each time (it is resolved against the hop that sent it)
+    for status in [301u16, 302, 303, 307, 308] { for n in 0usize..5 { for max in [0u32, 1, 2, 5] {
+        let start = format!("{}/up/{}/{}", base, status, "d/".repeat(n));
+        seen.lock().unwrap().clear();
+        let res = s.get(&start).max_redirections(max).send();
+        let sent = seen.lock().unwrap().clone();
+        cases += 1;
+        let ctx = format!("status {} depth {} max_redirections {} Location ../ on every hop", status, n, max);
+        if n as u32 <= max {
+            let r = res.unwrap_or_else(|e| panic!("{}: {} (requests {:?})", ctx, e, sent));
+            assert_eq!((r.status().as_u16(), r.url().as_str()), (200, &format!("{}/up/{}/", base, status)[..]), "{}", ctx);
+            assert_eq!(sent.len(), n + 1, "one request per hop: {} -> {:?}", ctx, sent);
+        } else {
+            assert!(matches!(res.map_err(|e| e.into_kind()), Err(crate::ErrorKind::TooManyRedirections)), "too many redirections expected: {}", ctx);
+            assert_eq!(sent.len() as u32, max + 1, "at most max_redirections + 1 requests: {} -> {:?}", ctx, sent);
+        }
     } } }
     for p in ["/noloc", "/badloc", "/ftploc", "/gopherloc", "/wsloc", "/ftpportloc", "/mailloc"] {
         seen.lock().unwrap().clear();
